@@ -192,6 +192,28 @@ def ringRecv (tm : TMap) (shift : Nat) (srcs : List (List α × Nat)) (dsts : Li
     | none => d)
 end Spec
 
+/-- `vector::resize(n)` on a flat cell buffer of elements of `e` cells (`dflt` = one value-initialised element) -/
+def resizeCells {α} (e : Nat) (dflt : List α) (cells : List α) (n : Nat) : List α :=
+  let have_ := cells.length / (if e = 0 then 1 else e)
+  if n ≤ have_ then cells.take (n * e) else cells.take (have_ * e) ++ (List.replicate (n - have_) dflt).flatten
+
+namespace Spec
+variable {α : Type}
+/-- `rrecv` (receive with size discovery): `MPI_Mprobe` + `MPI_Get_count` give the number `n` of elements sent, the
+receive object is resized to `n` elements, then the `n` elements are received into it -/
+def rrecv (tm : TMap) (dflt : List α) (src : List α) (n : Nat) (dst : List α) : List α :=
+  transferN tm n src 0 (resizeCells tm.extent dflt dst n) 0
+
+/-- a ring of `rrecv`s: rank `r` receives what rank `(r - shift) mod P` sent, whatever its receive object held -/
+def ringRrecv (tm : TMap) (dflt : List α) (shift : Nat) (srcs : List (List α × Nat)) (dsts : List (List α)) :
+    List (List α) :=
+  let P := dsts.length
+  dsts.mapIdx (fun r d =>
+    match srcs[(r + P - shift % P) % P]? with
+    | some s => rrecv tm dflt s.1 s.2 d
+    | none => d)
+end Spec
+
 /-! ### the sequential stand-in `Communication<No_Comm>` (communication.hh), element = `e` cells, `=` copies
 the whole element -/
 namespace Seq
@@ -241,7 +263,52 @@ def iallgather (e : Nat) (dataIn dataOut : List α) : List α := assignElem e da
 /-- `allgatherv(in, sendDataLen, out, recvDataLen, displ) { for i<sendDataLen: out[*displ+i] = in[i]; }` (repaired) -/
 def allgatherv (e : Nat) (inp : List α) (sendLen : Nat) (out : List α) (_recvLen displ : Nat) : List α :=
   copyLoop e inp 0 out displ sendLen
+
+/-- the general loop shape the translator `tools/translators/tr_c07.py` emits for the bodies in communication.hh:
+`for (int i = start; i < bound; i++) dst[di i] = src[si i];` (elements of `e` cells) -/
+def forCopy (e : Nat) (src dst : List α) (start bound : Nat) (di si : Nat → Nat) : List α :=
+  (List.range' start (bound - start)).foldl (fun acc i => assignElem e src (si i) acc (di i)) dst
+
+/-- `rank()`, `size()`, return value of `barrier()` -/
+def rank : Nat := 0
+def size : Nat := 1
+def barrier : Nat := 0
 end Seq
+
+/-! ### what the MPI standard says about the predefined handles (MPI 3.1 §3.2.2, §5.9.2, §17.1.9) — the
+specification side of the tables that `tr_c07.py` extracts from `ComposeMPITraits` / `ComposeMPIOp` -/
+
+/-- the C/C++ type a predefined MPI datatype describes -/
+def mpiCType : String → Option String
+  | "MPI_CHAR" => some "char"
+  | "MPI_SIGNED_CHAR" => some "signed char"
+  | "MPI_UNSIGNED_CHAR" => some "unsigned char"
+  | "MPI_SHORT" => some "short"
+  | "MPI_UNSIGNED_SHORT" => some "unsigned short"
+  | "MPI_INT" => some "int"
+  | "MPI_UNSIGNED" => some "unsigned int"
+  | "MPI_LONG" => some "long"
+  | "MPI_UNSIGNED_LONG" => some "unsigned long"
+  | "MPI_LONG_LONG" => some "long long"
+  | "MPI_LONG_LONG_INT" => some "long long"
+  | "MPI_UNSIGNED_LONG_LONG" => some "unsigned long long"
+  | "MPI_FLOAT" => some "float"
+  | "MPI_DOUBLE" => some "double"
+  | "MPI_LONG_DOUBLE" => some "long double"
+  | "MPI_WCHAR" => some "wchar_t"
+  | "MPI_CXX_BOOL" => some "bool"
+  | "MPI_CXX_FLOAT_COMPLEX" => some "std::complex<float>"
+  | "MPI_CXX_DOUBLE_COMPLEX" => some "std::complex<double>"
+  | "MPI_CXX_LONG_DOUBLE_COMPLEX" => some "std::complex<long double>"
+  | _ => none
+
+/-- the binary function a predefined reduction handle computes, named by the functor template dune-common uses -/
+def mpiOpFunctor : String → Option String
+  | "MPI_SUM" => some "std::plus"
+  | "MPI_PROD" => some "std::multiplies"
+  | "MPI_MIN" => some "Min"
+  | "MPI_MAX" => some "Max"
+  | _ => none
 
 /-! ## (ii) MPIPack -/
 
@@ -315,11 +382,6 @@ inductive Dest (α β : Type)
   /-- a `vector<T>`/`string` with `cells.length / extent` elements; `dflt` = a value-initialised element -/
   | dyn (tm : TMap) (dflt : List α) (cells : List α)
   | raw (bytes : List β)
-
-/-- `vector::resize(n)` on a flat cell buffer of elements of `e` cells -/
-def resizeCells {α} (e : Nat) (dflt : List α) (cells : List α) (n : Nat) : List α :=
-  let have_ := cells.length / (if e = 0 then 1 else e)
-  if n ≤ have_ then cells.take (n * e) else cells.take (have_ * e) ++ (List.replicate (n - have_) dflt).flatten
 
 def resizeBytes {β} (zero : β) (bytes : List β) (n : Nat) : List β :=
   if n ≤ bytes.length then bytes.take n else bytes ++ List.replicate (n - bytes.length) zero
